@@ -698,6 +698,25 @@ func (e *Engine) noteKnown(id, kind, label, pos string, inputs map[string]interf
 	}
 }
 
+// knownWhere: does a KnownPanic declaration "site" or "site | kind" cover a panic of this kind at pos?
+func knownWhere(where, pos, kind string) bool {
+	if i := strings.Index(where, " | "); i >= 0 {
+		return strings.Contains(pos, where[:i]) && strings.Contains(kind, where[i+3:])
+	}
+	return strings.Contains(pos, where)
+}
+
+// logKnownHit appends (id, where, kind) to the file named by GOSMT_KNOWNLOG (maintenance aid: which panic
+// kinds a KnownPanic declaration actually absorbs).
+func logKnownHit(id, where, kind string) {
+	if fn := os.Getenv("GOSMT_KNOWNLOG"); fn != "" {
+		if f, err := os.OpenFile(fn, os.O_APPEND|os.O_CREATE|os.O_WRONLY, 0o644); err == nil {
+			fmt.Fprintf(f, "%s\t%s\t%s\n", id, where, kind)
+			f.Close()
+		}
+	}
+}
+
 // knownSite: is a violated obligation of this kind at this position attributed to an open finding?
 func (e *Engine) knownSite(kind, pos string) string {
 	for _, kf := range e.opts.KnownSites {
@@ -725,9 +744,10 @@ func (e *Engine) panicPath(st *State, kind string, ins ssa.Instruction) {
 	if st.noPanic && !inHarnessSupport(ins) {
 		// known panic sites
 		for _, kp := range st.knownPan {
-			if strings.Contains(pos, kp.where) && e.opts.Known[kp.id] {
+			if knownWhere(kp.where, pos, kind) && e.opts.Known[kp.id] {
 				r, vals, _, _ := e.checkSat(st.pc, nil, e.wantTerms())
 				if r == Sat {
+					logKnownHit(kp.id, kp.where, kind)
 					inputs, _ := e.decodeModel(vals)
 					e.KnownSeen[kp.id] = fmt.Sprintf("panic (%s) at %s, e.g. %v", kind, pos, compactInputs(inputs))
 					e.noteKnown(kp.id, "panic", kind, pos, inputs)
